@@ -329,9 +329,13 @@ class S:
     __rmul__ = __mul__
 
     def __truediv__(self, o):
+        if isinstance(o, S) and engine() is not None and bool(SB(o.t == 0)):
+            raise ZeroDivisionError("division by zero (symbolic divisor can be 0)")
         return S(self.t / tz(o))
 
     def __rtruediv__(self, o):
+        if engine() is not None and bool(SB(self.t == 0)):
+            raise ZeroDivisionError("division by zero (symbolic divisor can be 0)")
         return S(tz(o) / self.t)
 
     def __neg__(self):
